@@ -144,18 +144,51 @@ example :
 
 /-! ### stored order and reduced views
 
-`storeInsert` places a change that lacks an order id right after its predecessor in the iteration.  Full
-statements (not proved in Lean; the harness checks them on every run on the real storage: `stored.causal`,
-`stored.orderid`, `iter.vs.stored`, `tree.stored`, `cross.*`, `reopen.*`, `history.order`): -/
+`storeInsert` places a change that lacks an order id right after its predecessor in the iteration. -/
 
-/-- the stored sequence after an `add` is a linear extension (every stored parent earlier) and restricted to
-the in-memory changes it is the iteration -/
+/-- **storage order** (= `orderid_matches_iter`), full strength: `stored` is the stored sequence before the
+addition (unique entries; restricted to the in-memory changes it is the iteration; none of the new changes is
+stored yet).  After `storeInsert` (= `updateHeads` giving every change that lacks an order id one strictly
+between its neighbours in the iteration, then `AddAll`):
+* the stored sequence restricted to the in-memory changes is exactly the new iteration,
+* the entries stored before keep their relative order (order ids are never rewritten),
+* nothing is stored twice. -/
 def C06_storage_order_full : Prop :=
   ∀ (stored : List Nat) (root : Nat) (att news : List Change),
-    WFAtt (att ++ news) → root ∈ att.map (·.id) →
+    WFAtt (att ++ news) → root ∈ att.map (·.id) → stored.Nodup →
     stored.filter (fun x => (att.map (·.id)).contains x) = iter root att →
+    (∀ n ∈ news, n.id ∉ stored) →
     (storeInsert stored (iter root (att ++ news))).filter (fun x => ((att ++ news).map (·.id)).contains x)
-      = iter root (att ++ news)
+        = iter root (att ++ news) ∧
+    (storeInsert stored (iter root (att ++ news))).filter (fun x => stored.contains x) = stored ∧
+    (storeInsert stored (iter root (att ++ news))).Nodup
+
+theorem storage_order : C06_storage_order_full :=
+  fun stored root att news hwf hroot hnd hst hfresh => storeInsert_spec stored root att news hwf hroot hnd hst hfresh
+
+/-- **storage order is a linear extension**: in the stored sequence after the addition every presented change
+comes after each of its presented parents. -/
+theorem storage_order_causal (stored : List Nat) (root : Nat) (att news : List Change)
+    (hwf : WFAtt (att ++ news)) (hroot : root ∈ att.map (·.id)) (hnd : stored.Nodup)
+    (hst : stored.filter (fun x => (att.map (·.id)).contains x) = iter root att)
+    (hfresh : ∀ n ∈ news, n.id ∉ stored) :
+    ∀ c ∈ att ++ news, ∀ p ∈ c.prevs, p ∈ iter root (att ++ news) →
+      pos (storeInsert stored (iter root (att ++ news))) p < pos (storeInsert stored (iter root (att ++ news))) c.id := by
+  intro c hc p hp hpi
+  obtain ⟨h1, _, _⟩ := storeInsert_spec stored root att news hwf hroot hnd hst hfresh
+  have hgood := iter_good root (att ++ news) hwf
+  have hchild : c.id ∈ children (att ++ news) p := mem_children.mpr ⟨c, hc, rfl, hp⟩
+  have hci : c.id ∈ iter root (att ++ news) := hgood.closed p hpi c.id hchild
+  have hlt := hgood.pos_lt p hpi c.id hchild
+  have hroot' : root ∈ (att ++ news).map (·.id) := by
+    rw [List.map_append]; exact List.mem_append.mpr (Or.inl hroot)
+  have hmem := iter_mem_ids root (att ++ news) hwf hroot'
+  rw [← h1] at hlt hci
+  exact pos_filter_lt_rev _ _ p c.id (List.contains_iff_mem.mpr (hmem p hpi))
+    (List.contains_iff_mem.mpr (hmem c.id (by rw [h1] at hci; exact hci))) (List.mem_filter.mp hci).1 hlt
+
+example : storeInsert [1, 3] (iter 1 [⟨1, [], 0, true⟩, ⟨3, [1], 1, false⟩, ⟨2, [1], 1, false⟩, ⟨4, [2, 3], 1, false⟩])
+    = [1, 2, 3, 4] := by decide
 
 /-- a view reduced to a later snapshot `s` is the restriction of the full order, *provided* every change below
 `s` has all its attached parents below-or-equal `s` (honest histories, DESIGN §3 Inv-S) -/
